@@ -719,6 +719,52 @@ def translate_constraints():
     return '\n\n'.join(out), status
 
 
+# per-element value of L1Norm / L2NormSquared (`value = ...` in forward) and the reduction that follows, pinned as source text
+VALUE_SITES = [
+    dict(name='l1_value', file='operators/functionals/L1Norm.py', cls='L1Norm', inputs=['self_weight', 'x', 'self_target'], model='(fun w x t => M.l1ValEl w t x)'),
+    dict(name='l2_value', file='operators/functionals/L2NormSquared.py', cls='L2NormSquared', inputs=['self_weight', 'x', 'self_target'], model='(fun w x t => M.l2ValEl w t x)'),
+]
+VALUE_REDUCTION = ('if self.divide_by_n:\n    return (torch.mean(value, dim=self.dim, keepdim=self.keepdim),)\n'
+                   'else:\n    return (torch.sum(value, dim=self.dim, keepdim=self.keepdim),)')
+for _s in VALUE_SITES:
+    SITE_PROPS['prox_' + _s['name']] = 'C08'
+
+
+def _value_hook(node, ctx, poisoned):
+    f = node.func
+    if isinstance(f, ast.Attribute) and f.attr == 'square' and not node.args and not node.keywords:
+        z = py2lean.fexpr(f.value, ctx, poisoned)
+        return f'({z} * {z})'
+    return _prox_hook(node, ctx, poisoned)
+
+
+def translate_value_site(site):
+    name = 'prox_' + site['name']
+    py2lean.CALL_HOOKS.append(_value_hook)
+    try:
+        tree = ast.parse((SRC / site['file']).read_text())
+        fn = _find(tree, site['cls'], 'forward')
+        body = [st for st in fn.body if not (isinstance(st, ast.Expr) and isinstance(st.value, ast.Constant))]
+        if len(body) != 2 or not (isinstance(body[0], ast.Assign) and ast.unparse(body[0].targets[0]) == 'value'):
+            raise py2lean.Untranslatable('forward is not `value = ...` followed by the reduction')
+        if ast.unparse(body[1]) != ast.unparse(ast.parse(VALUE_REDUCTION).body[0]):
+            raise py2lean.Untranslatable('the reduction (mean / sum over self.dim) was rewritten')
+        ctx = py2lean.Ctx(site['inputs'])
+        term = py2lean.fexpr(body[0].value, ctx, set())
+        if ctx.params != site['inputs']:
+            raise py2lean.Untranslatable(f'free names {ctx.params}')
+        sig = ' '.join(f'({p_} : K)' for p_ in site['inputs'])
+        return (f'/-- translated from `{site["file"]}:forward (line {fn.lineno})`: `value = …` (the reduction that follows is pinned as text) -/\n'
+                f'def {name} {sig} : K :=\n  {term}\ndef {name}_translated : Bool := true'), 'translated'
+    except (py2lean.Untranslatable, OSError, SyntaxError) as e:
+        sig = ' '.join(f'({p_} : K)' for p_ in site['inputs'])
+        args = ' '.join(site['inputs'])
+        return (f'/-- FALLBACK (source outside the translatable fragment: {str(e)[:100]}): the hand-written model -/\n'
+                f'def {name} {sig} : K :=\n  {site["model"]} {args}\ndef {name}_translated : Bool := false'), f'fallback: {e}'
+    finally:
+        py2lean.CALL_HOOKS.remove(_value_hook)
+
+
 def _find(tree, cls, func):
     scope = tree
     if cls is not None:
@@ -793,6 +839,10 @@ def generate():
             'variable {K : Type} [LT K] [DecidableLT K] [Neg K] [OfNat K 0] [OfNat K 1] [OfNat K 2] [Add K] [Sub K] [Mul K] [Div K]', 'open M', '']
     for site in PROX_SITES:
         text, st = translate_prox_site(site)
+        out += [text, '']
+        status['prox_' + site['name']] = st
+    for site in VALUE_SITES:
+        text, st = translate_value_site(site)
         out += [text, '']
         status['prox_' + site['name']] = st
     out += ['end Prox', '', '/-! conjugate gradient: the update formulas -/', 'section CG',
